@@ -12,11 +12,12 @@ import (
 
 // exclusions switch off, by construction, the input regions of open known findings.
 type exclusions struct {
-	destructure bool // C06-destructured-slot-props-empty: `="{ a, b }"` whose content reads a or b
-	frozen      bool // C06-include-in-slot-content-frozen: include tag in content that fills a slot more than once
-	tmplRoot    bool // C06-template-root-evaluated-twice: v-if on scoped variables when a component has a <template> root
-	shortNested bool // C06-shorthand-tag-in-slot-content-not-resolved: shorthand tag inside content supplied to a shorthand tag
-	layoutLeak  bool // C06-layout-leaks-instance-slot-content: layout instance lacking a name the page supplies somewhere
+	destructure  bool // C06-destructured-slot-props-empty: `="{ a, b }"` whose content reads a or b
+	frozen       bool // C06-include-in-slot-content-frozen: include tag in content that fills a slot more than once
+	tmplRoot     bool // C06-template-root-evaluated-twice: v-if on scoped variables when a component has a <template> root
+	shortNested  bool // C06-shorthand-tag-in-slot-content-not-resolved: shorthand tag inside content supplied to a shorthand tag
+	layoutDirect bool // C06-layout-file-slot-props-not-bound: scoped hand-over content for a <slot> of the layout file
+	layoutLeak   bool // C06-layout-leaks-instance-slot-content: layout instance lacking a name the page supplies somewhere
 }
 
 // chooser abstracts "pick one of n": rapid draws in the random search, a fixed script in the core.
@@ -387,6 +388,8 @@ type incOpts struct {
 	rec     string
 	// hook lets the caller add nodes to the content of a supply (forwarded slots, nested includes)
 	hook func(pl supplyPlan, scope []sv) []Node
+	// noBare: no text directly at the top level of the supplied content
+	noBare bool
 }
 
 func (b *builder) include(ci compInfo, o incOpts, plans []supplyPlan, ex exclusions, rec *ev.Rec) Node {
@@ -417,6 +420,7 @@ func (b *builder) include(ci compInfo, o incOpts, plans []supplyPlan, ex exclusi
 				break
 			}
 			sup.Destr = append([]string(nil), props...)
+			sup.WS = b.ch.n("pattern-ws", patternStyles)
 			var add []sv
 			for _, pn := range props {
 				if pn != "badge" {
@@ -425,7 +429,7 @@ func (b *builder) include(ci compInfo, o incOpts, plans []supplyPlan, ex exclusi
 			}
 			scope = append(add, scope...)
 		}
-		kids := b.content(o.p, scope, 0, true)
+		kids := b.content(o.p, scope, 0, !o.noBare)
 		if hasProp(props, "badge") && (sup.Var != "" || len(sup.Destr) > 0) {
 			// print the optional prop in a marker of its own, next to a never-defined control name:
 			// where this use of the slot binds nothing for badge, both must print alike
